@@ -81,7 +81,7 @@ def replay(root, path):
         print("VIOLATION property=%s replay=%s" % (prop, path))
         print(cf[0]["what"])
         return 1
-    penv = {"VP_THREADS": 1, "VP_CTORS": 1, "VP_CLONES": 1, "VP_MAX_VIOL": 50}
+    penv = {"VP_THREADS": 1, "VP_CTORS": 1, "VP_CLONES": 1, "VP_MAX_VIOL": 50, "VP_STUCK_CPU_S": 30}
     if v.get("input") is not None:
         penv["VP_ONLY_INPUT"] = ",".join(str(c) for c in v["input"]) or ","
     b.plan_env = penv
@@ -95,6 +95,13 @@ def replay(root, path):
     if other:
         print("(also observed on this case: %s)" % sorted(set(x.get("property") for x in other)))
     eng.cleanup()
+    if eng.stuck:
+        if prop == "C09":
+            print("VIOLATION property=%s replay=%s" % (prop, path))
+            print("  what: next() did not return within %s CPU-s on the recorded definition and input" % eng.stuck[0].get("cpu_s"))
+            return 1
+        print("INCONCLUSIVE the recorded case made no progress within %s CPU-s (a C09 matter)" % eng.stuck[0].get("cpu_s"))
+        return 2
     if found:
         return 1
     if eng.harness_msgs:
